@@ -58,6 +58,10 @@ def gen(rng, tier):
         else:
             ops.append({"op": "reverse_log"})
     spec["ops"] = ops
+    if rng.random() < 0.08:
+        # the very first run on freshly built objects keeps "the logs" (there are none yet) and/or the state
+        spec["cfg"]["init_log"] = False
+        spec["cfg"]["init_state"] = rng.random() < 0.5
     if rng.random() < 0.1:
         m = spec["model"]
         n0 = len(m["tasks"])
